@@ -6,7 +6,7 @@
 //!   B <tree>                      a base signal (owned for the whole case, no `ref` inside)
 //!   N <k> <tree>                  build, k x (is_exhausted, next, is_exhausted), drop
 //!   U <cap> <extra> <tree>        tree.until_exhausted(): at most cap calls, `extra` calls after the first None
-//!   T <n> <cap> <extra> <tree>    tree.take(n)
+//!   T <n> <cap> <extra> <tree>    tree.take(n); before every call of next: 17 size_hint().0 size_hint().1 (-1 = None) len()
 //!   I <cap> <extra> <tree>        tree.into_interleaved_samples().into_iter()
 //!   L <id> <nframes> v.. <cap> <extra> <tree>   signal::lift(frames, |arg| tree)
 //!   NC <j> <k> <tree>             j x next, clone the whole stack, k x next on the original, k x next on the clone
@@ -33,6 +33,8 @@
 //!   11 e0 e1 frame events  one Signal::next (is_exhausted before / after)
 //!   13 frame events      iterator item Some(frame);   15 sample events   Some(sample);   14 events  None
 //!   16 (id pulls ipulls)*  counters of the leaves under the op's tree, left to right
+//!   17 lo hi len         Take: size_hint and ExactSizeIterator::len before a call of next
+//! counts (delay k, take n, nth / skip k) are parsed as i128 and cast `as usize`: every usize value travels as itself
 //!   8 code               panic
 //! events: 1 id = Iterator::next on the iterator behind leaf id; 2 id = Signal::next on leaf id /
 //!   gen closure id; 3 id = map/zip_map closure id; 4 id frame = inspect closure id saw frame
@@ -698,9 +700,10 @@ macro_rules! fmt_mod {
                             out.push(line(10, &[&drain()]));
                             let mut it = s.take(n);
                             for _ in 0..cap {
-                                // ExactSizeIterator::len / size_hint must agree with what is left
+                                // size_hint / ExactSizeIterator::len: what is left of n (observed, so that take(2^32),
+                                // take(usize::MAX) .. are judged on the count itself and not only on the first items)
                                 let (lo, hi) = it.size_hint();
-                                assert!(Some(lo) == hi && lo == it.len());
+                                out.push(line(17, &[&[lo as i128, hi.map_or(-1, |h| h as i128), it.len() as i128]]));
                                 match it.next() {
                                     Some(f) => out.push(line(13, &[&f.un(), &drain()])),
                                     None => {
